@@ -107,6 +107,16 @@ PLAN = {
         "assumptions": ["environment rows run in a single-threaded process that sets the real environment variables"],
         "replay_runner": "proxy", "replay_trace": "Trace_Proxy",
     },
+    "C13": {
+        "mc": [{"name": "watchdog-design", "tla": "Watchdog.tla", "cfg": "Watchdog.cfg", "workers": 4},
+               {"name": "watchdog-as-found(exits after a ping)", "tla": "Watchdog.tla", "cfg": "Watchdog_asfound.cfg", "workers": 4, "expect_violation": "NoSpuriousTimeout"},
+               {"name": "watchdog-reordered(shutdown before drop)", "tla": "Watchdog.tla", "cfg": "Watchdog_reordered.cfg", "workers": 4, "expect_violation": "CutNeverComplete"}],
+        "families": [fam("rt", runner="rt", trace="Trace_Timeouts", threads=12, budget_ms=60000),
+                     fam("rt_release", runner="rt", trace="Trace_Timeouts", threads=1, budget_ms=60000)],
+        "rule": "Watchdog.tla (reader / watchdog thread / peer / clock, one action per critical section) checked exhaustively by TLC for every interleaving and every read sequence after end-of-body, with the two design alternatives shown to violate the invariants; real loopback exchanges: every phase as the stall point (upload not read, before/inside the head, between head and body, inside a length / close / chunked body, chunk-size line, CONNECT reply) x silent stall / octet drip faster than the read timeout x overall timeout / read timeout alone; redirect chains whose hops together exceed T; prompt responses read on after end-of-body; thread and socket counts after drop",
+        "assumptions": ["wall-clock checks use a margin of 700 ms against stalls of 2.5 s; the interleaving claims are decided in the model", "the connect phase is outside (the overall timeout applies once the connection is established)"],
+        "replay_runner": "rt", "replay_trace": "Trace_Timeouts",
+    },
     "C15": {
         "mc": [{"name": "prepared-fields-reader", "tla": "MultipartReader.tla", "cfg": "MultipartReader.cfg", "workers": 8}],
         "families": [fam("mpart", runner="mpart", trace="Trace_Multipart")],
